@@ -9,7 +9,7 @@ from ..selftest import Mutant
 
 ID = "C39"
 TECHNIQUE = "writer/reader lead-character and header-template table agreement (K6), compare-before-yield guard dominance in iter_patched_from_hunks (K2) (ast + re._parser)"
-FLOOR = 14
+FLOOR = 17
 PF = "breezy/patches.py"
 EXPLANATION = """
 K6: the lead character each hunk-line class writes in as_bytes (ContextLine b" ", InsertLine b"+", RemoveLine b"-")
